@@ -96,3 +96,48 @@ impl SegtreeItem<(u64, u64)> for StrCat {
         }
     }
 }
+
+/// Flip-a-range / count-ones: value = (ones, len), the modifier flips every bit of the range (non-idempotent,
+/// self-inverse), `fl` = pending flip for the children.  Two items with the same algebra and different modifier
+/// types: `FlipZ` is lazy with the **zero-sized** modifier `()`, `FlipB` takes a one-byte modifier (odd = flip).
+macro_rules! flip_item {
+    ($name:ident, $m:ty, $is_flip:expr) => {
+        #[derive(Clone, Debug, Default)]
+        pub struct $name {
+            pub ones: i64,
+            pub len: i64,
+            pub fl: bool,
+        }
+        impl From<i64> for $name {
+            fn from(x: i64) -> Self {
+                $name { ones: x & 1, len: 1, fl: false }
+            }
+        }
+        impl $name {
+            fn flip(&mut self) {
+                self.ones = self.len - self.ones;
+                self.fl = !self.fl;
+            }
+        }
+        impl SegtreeItem<$m> for $name {
+            fn merge(l: &Self, r: &Self) -> Self {
+                $name { ones: l.ones + r.ones, len: l.len + r.len, fl: false }
+            }
+            fn modify(&mut self, m: &$m) {
+                let is_flip: fn(&$m) -> bool = $is_flip;
+                if is_flip(m) {
+                    self.flip();
+                }
+            }
+            fn push(&mut self, l: &mut Self, r: &mut Self) {
+                if self.fl {
+                    l.flip();
+                    r.flip();
+                    self.fl = false;
+                }
+            }
+        }
+    };
+}
+flip_item!(FlipZ, (), |_| true);
+flip_item!(FlipB, u8, |m| m & 1 == 1);
